@@ -279,6 +279,68 @@ def r6(ctx, rep):
     rep.check("toposort(&dependencies, Some(main_table))" in show_stmts(ts["body"], maxdepth=8), "toposort-root", "the topological sort must be rooted at the main table (prunes unreachable tables)", file=ts["file"], line=ts["l"], fn=ts["path"])
 
 
+def binders(pat):
+    """field -> bound variable name for a struct pattern; '@' -> whole-binding name"""
+    out = {}
+    if pat.get("k") == "p_ident":
+        out["@"] = pat["n"]
+        if "sub" in pat:
+            out.update({k: v for k, v in binders(pat["sub"]).items() if k != "@"})
+        return out
+    if pat.get("k") == "p_struct":
+        for fname, fp in pat["f"]:
+            if fp.get("k") == "p_ident":
+                out[fname] = fp["n"]
+    return out
+
+
+def r7(ctx, rep):
+    rep.rule("C16.R7", "the frame of an append keeps the TOP relation's column identities (the bottom only contributes names)", floor=2)
+    syn = ctx.syn
+    f = syn.fn("transforms::append", crate="prqlc")
+    m = None
+    for mm in matches_of(f["body"]):
+        if show(mm["e"]) == "(t, b)":
+            m = mm
+    if m is None:
+        raise AnchorMissing("append: match (t, b)")
+    n = 0
+    for arm in m["arms"]:
+        pat = arm["pat"]
+        if pat.get("k") != "p_tuple" or len(pat["e"]) != 2:
+            continue
+        top, bot = binders(pat["e"][0]), binders(pat["e"][1])
+        if not top or pat["e"][0].get("k") != "p_struct":
+            continue
+        n += 1
+        kind = last_seg(pat["e"][0]["p"])
+        bot_vars = set(bot.values())
+        id_fields = {"target_id", "target_name", "input_id"}
+        bad = []
+        for c in walk(arm["body"]):
+            if c.get("k") == "struct" and c["p"].startswith("LineageColumn::"):
+                for fname, fv in c["f"]:
+                    if fname in id_fields:
+                        v = show(fv)
+                        if v in bot_vars or v not in set(top.values()):
+                            bad.append(f"{fname}: {v}")
+        # the arm must not yield the bottom column itself
+        tails = [tail_expr(a2["body"]) if a2["body"].get("k") == "block" else a2["body"] for mm2 in matches_of(arm["body"]) for a2 in mm2["arms"]]
+        tails.append(tail_expr(arm["body"]) if arm["body"].get("k") == "block" else arm["body"])
+        for t in tails:
+            if t is not None and t.get("k") == "path" and t["p"] in bot_vars:
+                bad.append(f"returns bottom column `{t['p']}`")
+        rep.check(not bad, f"append:{kind}",
+                  f"in the {kind} arm of append() the resulting column must keep the top's {sorted(id_fields & set(pat_fields(pat['e'][0])))}; found {bad}: a column identified by the bottom relation's id is not "
+                  "visible in the top pipeline, so later references and the closing Select use an undefined column id",
+                  file=f["file"], line=arm["l"], fn=f["path"])
+    rep.check(n >= 2, "arms", f"expected the All/All and Single/Single arms in append(), found {n}", file=f["file"], line=f["l"], fn=f["path"])
+
+
+def pat_fields(pat):
+    return [fname for fname, _ in pat.get("f", [])]
+
+
 def run(ctx, rep):
-    for r in (r1, r2, r3_r4, r5, r6):
+    for r in (r1, r2, r3_r4, r5, r6, r7):
         rep.guard(r, ctx)
